@@ -666,18 +666,50 @@ def w_notify(items):
 # ---------------------------------------------------------------------------
 # indications: at most one unconfirmed per bearer
 # ---------------------------------------------------------------------------
-IND_OPS = ('indA', 'indB', 'indAB', 'cfm_att', 'cfm_eatt', 'wait30')
+# Operations of an indication history.  Application side: start indicate_subscribers for
+# characteristic A / B / both, start notify_subscribers(A).  Time: 30 s pass.  Peer side
+# (real ATT PDUs through the raw seam, '<op>@<bearer>'): Handle Value Confirmation; Write
+# Requests to the CCCDs of that bearer (all off / all notify-only / all notify+indicate /
+# only A's off); Exchange MTU.  Everything a peer can do between an indication and its
+# confirmation that might make the server forget that an indication is outstanding.
+APP_OPS = ('indA', 'indB', 'indAB', 'ntfA')
+PEER_OPS = ('cfm', 'off', 'ntfonly', 'sub', 'offA', 'mtu')
+IND_OPS = ('indA', 'indB', 'indAB', 'cfm@att', 'cfm@eatt', 'wait30')  # both bearers interleaved, confirmations only
 IND_TIMEOUT = 30.0
 
 
-def run_indication_history(aw, hist, names, attrs):
-    """Returns (violation message or None, observation tuple)."""
+def focus_ops(bearer):
+    """Alphabet with every peer operation, all on one bearer (the other bearer stays
+    subscribed and is watched too)."""
+    return APP_OPS + ('wait30',) + tuple(f'{o}@{bearer}' for o in PEER_OPS)
+
+
+def indication_histories(quick):
+    seen, out = set(), []
+    plans = [(IND_OPS, 5 if quick else 7), (focus_ops('att'), 4 if quick else 5), (focus_ops('eatt'), 4 if quick else 5)]
+    for ops, depth in plans:
+        for d in range(1, depth + 1):
+            for h in itertools.product(ops, repeat=d):
+                # histories that never start an indication are trivial; keep them out
+                if h not in seen and any(o.startswith('ind') for o in h):
+                    seen.add(h)
+                    out.append(h)
+    return out
+
+
+def run_indication_history(aw, hist, names, attrs, cccds):
+    """The invariant is judged from the wire only: per bearer, Handle Value Indications
+    (0x1D) sent minus confirmations (0x1E) delivered, an indication also being released
+    when the 30 s transaction timeout has passed since it was sent.
+    Returns (violation message or None, observation tuple)."""
     loop = aw.loop
     srv = aw.server
     tasks = []
+    by = {'att': names[0], 'eatt': names[1]}
     sent_at = {n: [] for n in names}  # send times of indications not yet released
     obs = []
     worst = None
+    touched_cccd = False
     for n in names:
         aw.take(n)
 
@@ -688,17 +720,13 @@ def run_indication_history(aw, hist, names, attrs):
                     sent_at[n].append(loop.time())
 
     for i, op in enumerate(hist):
-        if op in ('indA', 'indB', 'indAB'):
-            for k in ((0,) if op == 'indA' else (1,) if op == 'indB' else (0, 1)):
-                tasks.append(loop.create_task(srv.indicate_subscribers(attrs[k])))
+        if op in APP_OPS:
+            if op == 'ntfA':
+                tasks.append(loop.create_task(srv.notify_subscribers(attrs[0])))
+            else:
+                for k in ((0,) if op == 'indA' else (1,) if op == 'indB' else (0, 1)):
+                    tasks.append(loop.create_task(srv.indicate_subscribers(attrs[k])))
             loop.run_quiescent()
-            absorb()
-        elif op in ('cfm_att', 'cfm_eatt'):
-            n = names[0] if op == 'cfm_att' else names[1]
-            # a confirmation releases the (oldest) outstanding indication of that bearer
-            if sent_at[n]:
-                sent_at[n].pop(0)
-            aw.inject(n, bytes([A.OP_CONFIRMATION]))
             absorb()
         elif op == 'wait30':
             target = loop.time() + IND_TIMEOUT
@@ -715,6 +743,23 @@ def run_indication_history(aw, hist, names, attrs):
                 absorb()
             loop.advance(target - loop.time())
             absorb()
+        else:
+            kind, b = op.split('@')
+            n = by[b]
+            if kind == 'cfm':
+                # a confirmation releases the (oldest) outstanding indication of that bearer
+                if sent_at[n]:
+                    sent_at[n].pop(0)
+                aw.inject(n, bytes([A.OP_CONFIRMATION]))
+            elif kind == 'mtu':
+                aw.inject(n, A.req_exchange_mtu(23))
+            else:
+                touched_cccd = True
+                bits = {'off': 0, 'offA': 0, 'ntfonly': 1, 'sub': 3}[kind]
+                for h in (cccds[:1] if kind == 'offA' else cccds):
+                    aw.inject(n, A.req_write(h, bytes([bits, 0])))
+                    absorb()
+            absorb()
         state = tuple(len(sent_at[n]) for n in names)
         obs.append(state)
         if worst is None and max(state) > 1:
@@ -725,16 +770,15 @@ def run_indication_history(aw, hist, names, attrs):
             break
         loop.advance(IND_TIMEOUT + 0.001)
     loop.run_quiescent()
-    if not all(t.done() for t in tasks) or any(f is not None for f in srv.pending_confirmations.values()):
+    if not all(t.done() for t in tasks):
         raise core.HarnessError(f'indication history {hist} did not drain')
+    if touched_cccd:
+        subscribe_all(aw, names, bits=3)
     for n in names:
         aw.take(n)
     outcomes = []
     for t in tasks:
-        if not t.done():
-            t.cancel()
-            outcomes.append('pending')
-        elif t.cancelled():
+        if t.cancelled():
             outcomes.append('cancelled')
         else:
             outcomes.append(type(t.exception()).__name__ if t.exception() else 'ok')
@@ -747,30 +791,34 @@ def setup_indication_world(aw, st=None):
     spec = shape_spec('std', 3, None, 0)
     db = aw.set_database(spec)
     names = [bearer_for(aw, 'att', 23, st), bearer_for(aw, 'eatt', 23, st)]
-    subscribe_all(aw, names, bits=2)
-    cccd_owners = [r['handle'] - 1 for r in db.rows if r['role'] == 'cccd']
+    subscribe_all(aw, names, bits=3)
     # the CCCD follows the descriptors of its characteristic; find the value attributes by role
     vals = [r['handle'] for r in db.rows if r['role'] == 'chr_value']
-    owners = []
-    for r in db.rows:
-        if r['role'] == 'cccd':
-            owners.append(max(v for v in vals if v < r['handle']))
+    cccds = [r['handle'] for r in db.rows if r['role'] == 'cccd']
+    owners = [max(v for v in vals if v < c) for c in cccds]
     attrs = [next(a for a in aw.server.attributes if a.handle == h) for h in owners[:2]]
-    assert len(attrs) == 2, (cccd_owners, owners)
-    return names, attrs
+    assert len(attrs) == 2 and len(cccds) == 2, (cccds, owners)
+    return names, attrs, cccds
+
+
+def indication_signature(hist, bad):
+    step = int(bad.split('after step ')[1].split(' ')[0])
+    before = sorted({o.split('@')[0] for o in hist[:step] if '@' in o and not o.startswith('cfm')})
+    last = hist[step].split('@')[0]
+    return {'last_op': 'ind' if last.startswith('ind') else last, 'peer_ops_before': before}
 
 
 def w_indications(hists):
     st = core.Stats('indications')
     aw = world()
-    names, attrs = setup_indication_world(aw, st)
+    names, attrs, cccds = setup_indication_world(aw, st)
     for hist in hists:
-        bad, obs = run_indication_history(aw, hist, names, attrs)
+        bad, obs = run_indication_history(aw, hist, names, attrs, cccds)
         st.case(obs)
         st.add('max_outstanding', max((max(s) for s in obs[0]), default=0))
         st.add('task_outcomes', obs[1])
         if bad:
-            st.violation('two_unconfirmed_indications', {'last_op': bad.split('(')[1].split(')')[0]}, bad, {'mode': 'indications', 'hist': list(hist)})
+            st.violation('two_unconfirmed_indications', indication_signature(hist, bad), bad, {'mode': 'indications', 'hist': list(hist)})
     if hists:
         st.samples.append({'history': list(hists[len(hists) // 2])})
     aw.restore()
@@ -985,9 +1033,7 @@ def run(ctx: core.Context) -> int:
         ctx.log(f'notify: evaluations={st.evaluations} pdus={st.counters.get("pdus")}')
 
     if want('indications'):
-        depth = 5 if quick else 7
-        # histories that never start an indication are trivial; keep them out
-        hists = [h for d in range(1, depth + 1) for h in itertools.product(IND_OPS, repeat=d) if any(o.startswith('ind') for o in h)]
+        hists = indication_histories(quick)
         st = ctx.sub('indications')
         for r in core.pmap(w_indications, core.split(hists, ctx.jobs * 4), ctx.jobs):
             st.merge(r)
@@ -1028,7 +1074,7 @@ def run(ctx: core.Context) -> int:
             + ('ATT_MTU in {23,24,48,185,517}' if quick else 'every ATT_MTU 23..517 (size-sensitive requests with boundary ranges and handle sets of size <= 2; the full set at 23,24,48,185,517; EATT at the five and at every 16th other MTU)')
             + ' on the ATT fixed channel and on a real EATT channel; distinct = (request group, opcode, reply opcode, error code, reply size bucket). '
             'pairs: all ordered pairs of ~20-30 representative PDUs delivered back-to-back. notify: 16 API forms x value lengths x MTU x 2 bearers. '
-            'indications: all sequences up to depth ' + ('5' if quick else '7') + ' over 6 operations, distinct = per-step outstanding counts + task outcomes. '
+            'indications: all sequences up to depth ' + ('5' if quick else '7') + ' over {indA, indB, indAB, confirmation on att, on eatt, 30 s pass} and, per bearer, all sequences up to depth ' + ('4' if quick else '5') + ' over {indA, indB, indAB, notify A, 30 s pass, and the peer PDUs confirmation / CCCDs off / notify-only / notify+indicate / A off / Exchange MTU on that bearer}; outstanding indications counted on the wire (0x1D sent - 0x1E delivered - timed out); distinct = per-step outstanding counts + task outcomes. '
             'seams: same requests through capture seam and end-to-end seam.'
         ),
         assumptions=[
@@ -1081,8 +1127,8 @@ def replay_one(check, c):
         msgs += [x.message for x in st.violations if x.check == check]
     elif mode == 'indications':
         with A.AttWorld() as aw:
-            names, attrs = setup_indication_world(aw)
-            bad, _ = run_indication_history(aw, tuple(c['hist']), names, attrs)
+            names, attrs, cccds = setup_indication_world(aw)
+            bad, _ = run_indication_history(aw, tuple(c['hist']), names, attrs, cccds)
             if bad:
                 msgs.append(bad)
     elif mode == 'eatt_l2cap':
